@@ -53,6 +53,9 @@ def run_case(spec: Dict[str, Any]):
         ex = TX.TensorExec(fn, ctx, spec["level"], spec["env"](ctx), spec["fields"](ctx, spec["level"]),
                            lambda s, d=spec["decide"]: d.get(s), spec["ignore_calls"], spec["havoc_calls"], spec["checkpoint_calls"],
                            is_method=spec.get("is_method", True), loop=spec.get("loop"))
+        cls_prefix = q.rsplit(".", 1)[0] + "." if "." in q else None
+        if cls_prefix:
+            ex.class_fns = {k[len(cls_prefix):]: v for k, v in D.functions(tree) if k.startswith(cls_prefix) and k.count(".") == cls_prefix.count(".")}
         ex.env_members = dict(spec.get("env_members", {}))
         ex.env_list = spec.get("env_list")
         res = ex.run()
@@ -89,13 +92,30 @@ def run_case(spec: Dict[str, Any]):
                     "" if good else f"returned {got} over {rv.refs() if isinstance(rv, TX.ATensor) else '?'}; specified {want} over {spec['expect_return_layout']}"))
         mem_ok = "expect_members" not in spec or (isinstance(res.state_objs, TX.AList) and res.state_objs.ref == spec["expect_members"])
         out.append((f"{case}:frame:members", "frame", "discharged" if mem_ok else "failed", "" if mem_ok else "member list changed"))
+    if "expect_label_draw" in spec:
+        d = res.state
+        want = TX.canon(spec["expect_label_draw"]["p"])
+        if not isinstance(d, TX.ADraw):
+            out.append((f"{case}:ensures:label-is-the-drawn-outcome", "ensures", "failed" if isinstance(d, TX.ATensor) else "unknown",
+                        f"the value stored in self.state after the measurement is {d!r}, not the drawn outcome"))
+        elif not isinstance(d.p, TX.ATensor) or isinstance(d.a, TX.Unknown):
+            out.append((f"{case}:ensures:draw-distribution", "ensures", "unknown", f"the distribution / support of the draw is not modelled (p = {d.p!r}, a = {d.a!r})"))
+        else:
+            got = TX.canon(TX.tensor_term(d.p))
+            okp = got == want
+            out.append((f"{case}:ensures:draw-distribution", "ensures", "discharged" if okp else "failed", "" if okp else f"outcome drawn with p = {got}; specified {want}"))
+            oka = d.a == spec["expect_label_draw"]["a"]
+            out.append((f"{case}:ensures:draw-support", "ensures", "discharged" if oka else "failed", "" if oka else f"outcomes drawn from {d.a!r}, specified {spec['expect_label_draw']['a']!r}"))
+            out.append((f"{case}:ensures:label-is-the-drawn-outcome", "ensures", "discharged", "self.state = the drawn outcome"))
     if "expect_draw" in spec:
         ds = ex.loop_draws
         if len(ds) != 1:
-            out.append((f"{case}:ensures:draw", "ensures", "failed", f"{len(ds)} outcome(s) recorded for the measured subsystem in one iteration, expected exactly one"))
+            out.append((f"{case}:ensures:draw", "ensures", "unknown", f"{len(ds)} outcome(s) recorded for the measured subsystem in one iteration, expected exactly one"))
+        elif not isinstance(ds[0].p, TX.ATensor) or isinstance(ds[0].a, TX.Unknown):
+            out.append((f"{case}:ensures:draw", "ensures", "unknown", f"the distribution / support of the draw is not modelled (p = {ds[0].p!r}, a = {ds[0].a!r})"))
         else:
             d = ds[0]
-            got = TX.canon(TX.tensor_term(d.p)) if isinstance(d.p, TX.ATensor) else repr(d.p)
+            got = TX.canon(TX.tensor_term(d.p))
             want = TX.canon(spec["expect_draw"])
             okp = got == want
             out.append((f"{case}:ensures:draw-distribution", "ensures", "discharged" if okp else "failed", "" if okp else f"outcome drawn with p = {got}; specified {want}"))
@@ -105,10 +125,18 @@ def run_case(spec: Dict[str, Any]):
         pl = ex.env.get(spec["probs_var"])
         if not isinstance(pl, TX.AProbList):
             pl = next((v for v in ex.env.values() if isinstance(v, TX.AProbList) and v.elem is not None), pl)
-        got = _canon_scalar(pl.elem.what) if isinstance(pl, TX.AProbList) and pl.elem is not None else repr(pl)
         w = spec["expect_probs"]
         want = f"re(trace({TX.canon(TX.closed_trace(w[1][1]))}))"
-        out.append((f"{case}:ensures:probabilities", "ensures", "discharged" if got == want else "failed", "" if got == want else f"probability of the generic operator is {got}; specified {want}"))
+        if not (isinstance(pl, TX.AProbList) and pl.elem is not None):
+            out.append((f"{case}:ensures:probabilities", "ensures", "unknown", f"the probability list is not modelled ({pl!r})"))
+        else:
+            try:
+                got = _canon_scalar(pl.elem.what)
+            except Outside as o:
+                got = None
+                out.append((f"{case}:ensures:probabilities", "ensures", "unknown", f"probability term outside the subset: {o}"))
+            if got is not None:
+                out.append((f"{case}:ensures:probabilities", "ensures", "discharged" if got == want else "failed", "" if got == want else f"probability of the generic operator is {got}; specified {want}"))
     return fn, out
 
 
@@ -129,8 +157,15 @@ def run_tensor_contracts(rep, props: List[str]):
             tree, src = D.parse(rel)
             rep.add_function(spec["function"], rel, ast.get_source_segment(src, fn) or "", "P (tensor call-site contracts, pyvc)")
         dt = (time.time() - t0) / max(1, len(obs))
+        fsrc = ""
+        if fn is not None:
+            tree_, src_ = D.parse(rel)
+            fsrc = ast.get_source_segment(src_, fn) or ""
         for suffix, kind, status, detail in obs:
             oid = f"{spec['function']}::tensor:{suffix}"
+            if status == "unknown":
+                rep.not_covered(spec["function"], fsrc, f"tensor contract [{spec['case']}]: {detail}")
+                continue
             rep.add_ob(Obligation(oid, spec["function"], kind, "pyvc", status, dt, detail))
             if status == "failed":
                 rep.violation(f"{spec['function']} [{spec['case']}] violates its tensor contract ({kind}): {detail}", key=f"P:{oid}",
